@@ -22,8 +22,8 @@
 (*                 in-place mutation of a shared object is expressible; references    *)
 (*                 are indices into the store.                                       *)
 (*                                                                                 *)
-(* Every (expression, result) pair is one initial state; `out` is what the          *)
-(* operational side observes for it (Filter.Match twice, then Filter.Apply).         *)
+(* Every (expression, result) pair is one state; `out` is what the operational side  *)
+(* observes for it (Filter.Match twice, then Filter.Apply).                          *)
 (*                                                                                 *)
 (* SharedLeafMasks = TRUE is a negative control, not a finding: it makes a .unit      *)
 (* leaf hand out the same mask object on every evaluation (a cache), which the        *)
@@ -34,11 +34,10 @@ EXTENDS Integers, Sequences, FiniteSets, TLC
 
 CONSTANTS
   W,                \* bits per mask word
-  ExprSet,          \* expressions to check (mode M)
-  ResultSet,        \* results to check (mode M)
+  Domain,           \* which finite domain mode M explores, see ExprSet / ResultSet at the end
   SharedLeafMasks   \* negative control, FALSE = the code as shipped
 
-Range(s) == {s[x] : x \in 1..Len(s)}
+Elems(s) == {s[x] : x \in 1..Len(s)}
 Get(f, k) == IF k \in DOMAIN f THEN f[k] ELSE ""      \* a missing key extracts as the empty value
 
 -----------------------------------------------------------------------------
@@ -60,15 +59,15 @@ Cfg(k, v)   == Node("cfg", "", k, v, <<>>, <<>>)          \* k:v      file confi
 Name(v)     == Node("name", "", "", v, <<>>, <<>>)        \* .name:v
 Sub(k, v)   == Node("sub", "", k, v, <<>>, <<>>)          \* /k:v     name configuration
 Unit(u)     == Node("unit", "", "", u, <<>>, <<>>)        \* .unit:u
-UnitRe(us)  == Node("unitre", "", "", "", us, <<>>)       \* .unit:/re/ with L(re) \cap UnitUniverse = Range(us)
+UnitRe(us)  == Node("unitre", "", "", "", us, <<>>)       \* .unit:/re/ with L(re) \cap UnitUniverse = Elems(us)
 In(kind, k, vs) == Node("in", kind, k, "", vs, <<>>)      \* fixed-list projection  key@(v1 v2 ...)
 
 (* Regular expressions.  The specification has no regexp engine.  A regexp term is   *)
 (* represented by its language over a finite universe of strings:                    *)
 (*   UnitRe(us)  stands for ANY regular expression re such that                      *)
-(*               {u \in UnitUniverse : re matches u} = Range(us).                    *)
+(*               {u \in UnitUniverse : re matches u} = Elems(us).                    *)
 (* The harness realises it as the anchored alternation ^(?:u1|...|uk)$ of the units   *)
-(* in us and, where Range(us) is exactly the set of universe members beginning with   *)
+(* in us and, where Elems(us) is exactly the set of universe members beginning with   *)
 (* some prefix p, also as ^p; it checks the side condition with Go's regexp package   *)
 (* (trusted) before use.  A literal value v may also be spelled /^(?:v)$/ with v      *)
 (* quoted by regexp.QuoteMeta; its language is {v} over any universe.                 *)
@@ -99,8 +98,8 @@ HoldsM(x, r, m) ==     \* does expression x hold for measurement record m of res
     [] x.op = "name"   -> r.name = x.v
     [] x.op = "sub"    -> Get(r.sub, x.k) = x.v
     [] x.op = "unit"   -> m.unit = x.v \/ Written(m) = x.v            \* base OR written unit
-    [] x.op = "unitre" -> m.unit \in Range(x.vs) \/ Written(m) \in Range(x.vs)
-    [] x.op = "in"     -> Extract(r, x.kind, x.k) \in Range(x.vs)
+    [] x.op = "unitre" -> m.unit \in Elems(x.vs) \/ Written(m) \in Elems(x.vs)
+    [] x.op = "in"     -> Extract(r, x.kind, x.k) \in Elems(x.vs)
 
 Holds(x, r, i) == HoldsM(x, r, r.meas[i])                           \* i in 1..Len(r.meas)
 
@@ -127,7 +126,7 @@ MaskNot(m)    == [w \in 1..Len(m) |-> Bits \ m[w]]                  \* ALL W bit
 NewStore(meas) == [h |-> <<>>, vals |-> meas, cache |-> <<>>]
 Ret(m, x, st) == [m |-> m, x |-> x, st |-> st]
 
-LeafMatchString(x, s) == IF x.op = "unitre" THEN s \in Range(x.vs) ELSE s = x.v
+LeafMatchString(x, s) == IF x.op = "unitre" THEN s \in Elems(x.vs) ELSE s = x.v
 
 \* the .unit closure (filter.go:60-68)
 UnitLeafMask(x, vals) ==
@@ -152,7 +151,7 @@ Eval(x, r, st) ==
     [] x.op = "cfg"  -> Ret(0, Get(r.cfg, x.k) = x.v, st)           \* q.Match(ext(res))
     [] x.op = "name" -> Ret(0, r.name = x.v, st)
     [] x.op = "sub"  -> Ret(0, Get(r.sub, x.k) = x.v, st)
-    [] x.op = "in"   -> Ret(0, Extract(r, x.kind, x.k) \in Range(x.vs), st)   \* projection.go:164-167
+    [] x.op = "in"   -> Ret(0, Extract(r, x.kind, x.k) \in Elems(x.vs), st)   \* projection.go:164-167
     [] x.op = "true" -> Ret(0, TRUE, st)                            \* FilterOp{OpAnd, nil}: the loop body never runs
     [] x.op = "not"  ->
          LET s == Eval(x.args[1], r, st) IN
@@ -212,14 +211,13 @@ MApply(M, st) ==
 
 TestBits(M, h) == [i \in 1..M.n |-> MTest(M, h, i - 1)]
 
-\* What a caller observes: Match, Match again on the same Filter, then Filter.Apply
-\* (= Match + Match.Apply), all on one store.
+\* What a caller observes: Filter.Match, then Filter.Apply (= Match again + Match.Apply) on
+\* the same Filter, all on one store.
 Run(x, r) ==
   LET st0 == NewStore(r.meas)
       M1  == DoMatch(x, r, st0)
       M2  == DoMatch(x, r, M1.st)
-      M3  == DoMatch(x, r, M2.st)
-      ap  == MApply(M3, M3.st)
+      ap  == MApply(M2, M2.st)      \* Filter.Apply = Match (here: the second one) + Match.Apply
   IN [ bits   |-> TestBits(M1, M1.st.h), all |-> MAll(M1, M1.st.h), any |-> MAny(M1, M1.st.h),
        outer  |-> <<MTest(M1, M1.st.h, -1), MTest(M1, M1.st.h, M1.n)>>,
        bits2  |-> TestBits(M2, M2.st.h), all2 |-> MAll(M2, M2.st.h), any2 |-> MAny(M2, M2.st.h),
@@ -229,23 +227,31 @@ Run(x, r) ==
        applied |-> ap.st.vals, ok |-> ap.ok ]
 
 -----------------------------------------------------------------------------
-VARIABLES e, r0, out
-vars == <<e, r0, out>>
+VARIABLES e, r0, out, stage
+RECURSIVE ExprIn(_, _), ResultSet(_)     \* defined at the end
+vars == <<e, r0, out, stage>>
 
-Init == /\ e \in ExprSet
-        /\ r0 \in ResultSet
-        /\ out = Run(e, r0)
-Next == FALSE /\ UNCHANGED vars
+(* TLC computes initial states in one thread, so only the expression is chosen in   *)
+(* Init; the result is chosen (and the operational side run) in the single step that  *)
+(* follows, which the workers share.  stage = 1 marks a complete (e, r0, out).         *)
+Init == /\ ExprIn(e, Domain)
+        /\ r0 = 0 /\ out = 0 /\ stage = 0
+Pick == /\ stage = 0
+        /\ r0' \in ResultSet(Domain)
+        /\ out' = Run(e, r0')
+        /\ stage' = 1
+        /\ UNCHANGED e
+Next == Pick
 Spec == Init /\ [][Next]_vars
 
 (* Properties (C06) *)
-TestOK     == out.bits = DBits(e, r0) /\ out.outer = <<FALSE, FALSE>>
-AllOK      == out.all = DAll(e, r0)
-AnyOK      == out.any = DAny(e, r0)
-MatchPure  == out.valsAfterMatch = r0.meas
-ApplyOK    == out.applied = DKeep(e, r0) /\ out.ok = (DKeep(e, r0) # <<>>)
-Repeatable == /\ out.bits2 = out.bits /\ out.all2 = out.all /\ out.any2 = out.any
-              /\ out.bits1b = out.bits /\ out.all1b = out.all /\ out.any1b = out.any
+TestOK     == stage = 1 => (out.bits = DBits(e, r0) /\ out.outer = <<FALSE, FALSE>>)
+AllOK      == stage = 1 => out.all = DAll(e, r0)
+AnyOK      == stage = 1 => out.any = DAny(e, r0)
+MatchPure  == stage = 1 => out.valsAfterMatch = r0.meas
+ApplyOK    == stage = 1 => (out.applied = DKeep(e, r0) /\ out.ok = (DKeep(e, r0) # <<>>))
+Repeatable == stage = 1 => /\ out.bits2 = out.bits /\ out.all2 = out.all /\ out.any2 = out.any
+                           /\ out.bits1b = out.bits /\ out.all1b = out.all /\ out.any1b = out.any
 
 -----------------------------------------------------------------------------
 (* Finite domains for mode M *)
@@ -278,31 +284,55 @@ B2 == Name("N1")
 U1 == Unit("ns/op")          \* matches KA through the written unit only
 U2 == Unit("B/op")
 U3 == UnitRe(<<"sec/op", "B/op">>)
-
-\* every measurement sequence of length 1..2W+1 over the two kinds, B1 true and false
-ResultsA == {MkRes("k1" :> c, "N1", "s1" :> "x", ks) : c \in {"v1", "v2"}, ks \in MeasSeqs({KA, KB}, 1..(2 * W + 1))}
-\* the same with B2 varying as well
-ResultsB == {MkRes("k1" :> c, n, "s1" :> "x", ks) : c \in {"v1", "v2"}, n \in {"N1", "N2"}, ks \in MeasSeqs({KA, KB}, 1..(2 * W + 1))}
-\* word-boundary lengths only, alternating kinds
+Lits(atoms) == atoms \cup {Not(x) : x \in atoms}
 Alt(n, first) == [i \in 1..n |-> IF (i % 2 = 1) = first THEN KA ELSE KB]
-ResultsC == {MkRes("k1" :> c, "N1", "s1" :> "x", Alt(n, f)) : c \in {"v1", "v2"}, n \in {1, W, W + 1, 2 * W, 2 * W + 1}, f \in BOOLEAN}
+
+(* The sets below take a parameter only because TLC evaluates parameterless constant  *)
+(* definitions eagerly at start-up.                                                   *)
+\* every measurement sequence of length 1..2W+1 over the two kinds, B1 true and false
+ResultsA(d) == {MkRes("k1" :> c, "N1", "s1" :> "x", ks) : c \in {"v1", "v2"}, ks \in MeasSeqs({KA, KB}, 1..(2 * W + 1))}
+\* the same with B2 varying as well
+ResultsB(d) == {MkRes("k1" :> c, n, "s1" :> "x", ks) : c \in {"v1", "v2"}, n \in {"N1", "N2"}, ks \in MeasSeqs({KA, KB}, 1..(2 * W + 1))}
+\* word-boundary lengths only, alternating kinds
+ResultsC(d) == {MkRes("k1" :> c, "N1", "s1" :> "x", Alt(n, f)) : c \in {"v1", "v2"}, n \in {1, W, W + 1, 2 * W, 2 * W + 1}, f \in BOOLEAN}
 
 AtomsQ == {True, B1, U1, U2}
-Lits(atoms) == atoms \cup {Not(x) : x \in atoms}
-\* quick: every expression of depth <= 2 with binary AND/OR, plus unary OR (key:(a)) and
-\* ternary AND/OR over atoms and negated atoms
-ExprsQuick == ExprsUpTo(AtomsQ, 2, {2})
-              \cup {Or(<<x>>) : x \in AtomsQ}
-              \cup {And(t) : t \in [1..3 -> Lits(AtomsQ)]} \cup {Or(t) : t \in [1..3 -> Lits(AtomsQ)]}
-
 AtomsT == {True, B1, B2, U1, U2, U3}
-\* thorough, part 1: depth <= 2, binary, six atoms (two independent whole-result terms), and
-\* ternary nodes over depth <= 1
-ExprsThorough1 == ExprsUpTo(AtomsT, 2, {2})
-                  \cup {And(t) : t \in [1..3 -> ExprsUpTo({B1, U1, U2}, 1, {2})]}
-                  \cup {Or(t) : t \in [1..3 -> ExprsUpTo({B1, U1, U2}, 1, {2})]}
-\* thorough, part 2: depth 3 over {B1, U1, U2}
-ExprsThorough2 == OneDeep({B1, U1, U2}, 2)
-\* thorough, part 3: every depth <= 3 binary expression over {B1, U1}
-ExprsThorough3 == ExprsUpTo({B1, U1}, 3, {2})
+
+(* The expression domains are written as enumeration predicates (x = ... under bounded  *)
+(* quantifiers) rather than as sets: TLC then enumerates them directly and removes        *)
+(* duplicates by fingerprint, instead of building and normalising sets of 10^5 records.    *)
+IsNot(x, S)    == \E y \in S : x = Not(y)
+IsOp(x, S, a)  == \/ \E t \in [1..a -> S] : x = And(t)
+                  \/ \E t \in [1..a -> S] : x = Or(t)
+\* x ranges over all expressions over `atoms` of depth <= d+1 with binary AND/OR
+UpTo(x, atoms, d) == LET S == ExprsUpTo(atoms, d, {2}) IN x \in atoms \/ IsNot(x, S) \/ IsOp(x, S, 2)
+\* x ranges over OneDeep(atoms, d)
+IsOneDeep(x, atoms, d) ==
+  LET S == ExprsUpTo(atoms, d, {2})
+      L == ExprsUpTo(atoms, 1, {2})
+  IN \/ IsNot(x, S)
+     \/ \E y \in S, z \in L : x = And(<<y, z>>) \/ x = And(<<z, y>>) \/ x = Or(<<y, z>>) \/ x = Or(<<z, y>>)
+
+ExprIn(x, d) ==
+  \/ d = "tiny" /\ x \in ExprsUpTo(AtomsQ, 1, {2})
+  \* quick: every expression of depth <= 2 with binary AND/OR over 4 atoms, plus unary OR
+  \* (key:(a)) and ternary AND/OR over atoms and negated atoms
+  \/ d \in {"quick", "neg"} /\ \/ UpTo(x, AtomsQ, 1)
+                               \/ \E y \in AtomsQ : x = Or(<<y>>)
+                               \/ IsOp(x, Lits(AtomsQ), 3)
+  \* thorough 1: depth <= 2, binary, six atoms (two independent whole-result terms, a regexp),
+  \* and ternary nodes over depth <= 1
+  \/ d = "thorough1" /\ \/ UpTo(x, AtomsT, 1)
+                        \/ IsOp(x, ExprsUpTo({B1, U1, U2}, 1, {2}), 3)
+  \* thorough 2: depth 3 over {B1, U1, U2}, one operand of the top node of depth <= 1
+  \/ d = "thorough2" /\ IsOneDeep(x, {B1, U1, U2}, 2)
+  \* thorough 3: every binary expression of depth <= 3 over {B1, U1}
+  \/ d = "thorough3" /\ UpTo(x, {B1, U1}, 2)
+
+ResultSet(d) ==
+  CASE d \in {"tiny", "neg"} -> ResultsC(d)
+    [] d = "quick" -> ResultsA(d)
+    [] d = "thorough1" -> ResultsB(d)
+    [] d \in {"thorough2", "thorough3"} -> ResultsC(d)
 =============================================================================
